@@ -2,11 +2,12 @@
    Proved: every fill's base amount is the truncation, its quote amount the rounding and its fee the rounding-up to
    the pair's precision (so all three are on the grid); what a fill takes from the bar's liquidity never exceeds
    what is left, and the used liquidity never exceeds the bar's share; market and stop orders need the whole pending
-   amount to fit.  C08_partial: the sum over all orders of a bar and the on-grid invariant of balances over whole
-   histories are validated by the correspondence check and the monitor. *)
+   amount to fit.  Proved over every reachable state: what one bar fills, summed over all orders, is
+   between 0 and the share of the bar's volume granted by the liquidity model (BarLiquidity.v).
+   C08_partial: the on-grid invariant of balances over whole histories (correspondence check + monitor). *)
 From Coq Require Import ZArith QArith List.
 From Basana Require Import Num.DecQ Num.DecQProofs Exchange.Model Exchange.OrderProofs Exchange.FeeProofs
-     Exchange.LifeProofs.
+     Exchange.LifeProofs Exchange.Prims Exchange.Structure Exchange.LedgerProofs Exchange.BarLiquidity.
 Import ListNotations.
 Open Scope Q_scope.
 
@@ -45,3 +46,25 @@ Print Assumptions C08_limit_partial_fill_fits.
 Theorem C08_truncation_shrinks : forall p q, 0 <= q -> 0 <= qtrunc p q /\ qtrunc p q <= q.
 Proof. exact qtrunc_nonneg. Qed.
 Print Assumptions C08_truncation_shrinks.
+
+(* within one bar, in any reachable state: the total base amount filled across all orders (tfa = sum of the filled
+   amounts of all orders) grows by at most the share of the bar's volume that the liquidity model grants *)
+Theorem C08_bar_fills_within_liquidity : forall c initial ops p when b s' u lp ip,
+  c_liq c = VolShare lp ip -> 0 <= lp -> ops_ok ops -> 0 <= b_volume b ->
+  let s := run c (init_st initial) ops in
+  on_bar c s p when b = Done s' u ->
+  0 <= tfa s' - tfa s /\ tfa s' - tfa s <= b_volume b * (lp / 100).
+Proof. exact bar_fills_within_liquidity_reachable. Qed.
+Print Assumptions C08_bar_fills_within_liquidity.
+
+Example C08_bar_nonvacuous :
+  let c := mkCfg [(1%positive, 2%nat); (2%positive, 2%nat)] [] None NoFee (VolShare 25 0) NoLoans in
+  let p := (1%positive, 2%positive) in
+  let ops := [OBar p 60%Z (mkBar 100 100 100 100 10); OCreate (KLimit 100) Buy p 5 false false;
+              OCreate (KLimit 100) Buy p 1 false false] in
+  let s := run c (init_st [(2%positive, 1000)]) ops in
+  match on_bar c s p 120%Z (mkBar 100 100 100 100 8) with
+  | Done s' _ => Qeq_bool (tfa s' - tfa s) 2 = true       (* 25% of 8: the first order takes it all *)
+  | Fail _ _ => False
+  end.
+Proof. vm_compute. reflexivity. Qed.
